@@ -139,7 +139,7 @@ func runLookupInBubble(t *testing.T, sc *Scenario, ch sim.Chooser) []sim.Ev {
 			done = true
 		default:
 		}
-		items := e.gate.Pending()
+		items := e.live(e.gate.Pending())
 		if done && len(items) == 0 {
 			break
 		}
